@@ -161,16 +161,21 @@ func c13Literals(c *Case) {
 	begin := func(st ...Stmt) *Program {
 		return &Program{Items: []any{&Rule{Kind: "BEGIN", Body: &Block{Stmts: st}}}}
 	}
-	// every byte 0x20-0xFF inside either quote style
-	for b := 0x20; b <= 0xff; b++ {
+	// every byte 0x01-0xFF inside either quote style (control bytes, tab, CR and LF included: a literal may span lines),
+	// and sequences of line-end bytes
+	seqs := []string{"\r\n", "\n\r", "\r\r\n", "a\r\nb\r\nc", "\t\n", "\n\n", "\r", " \r\n ", "\r\n#not a comment\r\n"}
+	for b := 0x01; b <= 0xff+len(seqs); b++ {
 		if b == '\\' {
 			continue
 		}
 		raw := "x" + string([]byte{byte(b)}) + "y"
+		if b > 0xff {
+			raw = "x" + seqs[b-0x100] + "y"
+		}
 		p := begin(Pr(S(raw)), Pr(Meth(S(raw), "length")))
 		rd := RenderProgram(p, ParenMinimal, nil)
 		for _, q := range []byte{'\'', '"'} {
-			if byte(b) == q {
+			if b <= 0xff && byte(b) == q {
 				continue
 			}
 			var sb strings.Builder
@@ -298,7 +303,7 @@ func c13Cases(tier string) int {
 func init() {
 	register(&Prop{
 		ID: "C13", Level: "exploration",
-		Rule:     "metamorphic: a generated program (structured programs and function programs, as token sequences) is run in the canonical layout (one space between tokens, one statement per line, single quotes) and in 6 (thorough 12) random layouts of the same tokens: between tokens nothing (where a table says they cannot fuse) / spaces / tabs / CR / comment+newline / newlines, except no newline after print/return, after a print-list comma or before ';'; statement-separating newlines replaced by ';' unless the statement ends in '}'; either quote style. stdout and outcome must be identical. Enumerated: every adjacent token pair of a two-program corpus using all operators and keywords written without a space, one gap at a time and all at once; literal slice vs the model: every byte 0x20-0xFF in both quote styles, the three escapes and 10 non-escapes (error only when evaluated), number spellings incl. 30 digits and leading zeros, 126 identifiers built from keywords. Non-trivial = layout differing from canonical in >= 3 gaps incl. a newline, comment or removed space; distinct by text.",
+		Rule:     "metamorphic: a generated program (structured programs and function programs, as token sequences) is run in the canonical layout (one space between tokens, one statement per line, single quotes) and in 6 (thorough 12) random layouts of the same tokens: between tokens nothing (where a table says they cannot fuse) / spaces / tabs / CR / comment+newline / newlines, except no newline after print/return, after a print-list comma or before ';'; statement-separating newlines replaced by ';' unless the statement ends in '}'; either quote style. stdout and outcome must be identical. Enumerated: every adjacent token pair of a two-program corpus using all operators and keywords written without a space, one gap at a time and all at once; literal slice vs the model: every byte 0x01-0xFF (control bytes, CR, LF included) and 9 sequences of line-end bytes inside a string literal in both quote styles, the three escapes and 10 non-escapes (error only when evaluated), number spellings incl. 30 digits and leading zeros, 126 identifiers built from keywords. Non-trivial = layout differing from canonical in >= 3 gaps incl. a newline, comment or removed space; distinct by text.",
 		NumCases: c13Cases,
 		Run: func(c *Case) {
 			switch c.Idx {
